@@ -36,4 +36,13 @@ CHECKS = {
           "and the fixture corpus.",
   "note": "Trusted: vmon/refmodels/timemaps.py. Origin judged only where the statement fixes it; rel. tol. 1e-9.",
  },
+ "C10": {
+  "technique": "contract on the six real map property getters, evaluated at every integer position against a brute-force 'latest element <= t' model",
+  "text": "Hooks on Part.time_signature_map / key_signature_map / clef_map / measure_map / measure_number_map / "
+          "metrical_position_map fire whenever a map is obtained; it is evaluated (vector call + sampled scalar calls) at every "
+          "integer position and compared with a brute-force search over the registered elements (back-fill before the first "
+          "element, documented defaults, pickup convention). Workload: generated parts with 0-5 elements of each kind on and off "
+          "barlines, staves without clef, irregular measures, pickups, late first elements, musical-beat mode, gen_score parts and fixtures.",
+  "note": "Trusted: vmon/refmodels/sigmaps.py. Measure gaps / beyond the last measure / first measure without its signature at the start are don't-care.",
+ },
 }
